@@ -13,9 +13,9 @@ tw=$(cd $wt && /venv/bin/python -m pytest -q -p no:cacheprovider --timeout=900 -
 echo "tests with change: $tw"
 (cd $wt && PYTHONPATH=$wt /venv/bin/python $dest/demo.py > /tmp/.demo_with 2>&1); dw=$?
 echo "demo with change: exit=$dw: $(tail -2 /tmp/.demo_with | tr '\n' ' ' | cut -c1-300)"
-git -C $wt stash -q
+git -C $wt apply -R $dest/patch.diff
 (cd $wt && PYTHONPATH=$wt /venv/bin/python $dest/demo.py > /tmp/.demo_without 2>&1); dn=$?
 echo "demo without change: exit=$dn: $(tail -1 /tmp/.demo_without | cut -c1-200)"
-git -C $wt stash pop -q
+git -C $wt apply $dest/patch.diff
 rm -rf $out/dll_verify
 printf '{"tests_with_change": "%s", "demo_exit_with_change": %s, "demo_exit_without_change": %s}\n' "$tw" $dw $dn > $dest/verified.json
